@@ -796,10 +796,28 @@ func ruleSendFile(rule string) ruleFn {
 			okcall("(*replica/client.ReplicaClient).get"),
 			atom("exit code 0", "+"+exit+" ==0"),
 			atom("exit code 0 seen twice", "+count{+"+exit+" ==0} -1 ==0"))
-		// the poll result is fresh in every round: the get is inside the loop (a success return is
-		// not reachable from a success edge of an earlier round without a new get)
 		if len(ok) == 0 {
 			c.Bad(rule, FnName(fn)+" | success return", "", "no success return", nil)
+		}
+		// fileOperation (coalesce / hard-link helpers of the sync agent): done means the process
+		// reported exit code 0 on a successful poll; running out of patience is not success
+		if fo := c.Anchor(rule, "(*replica/client.ReplicaClient).fileOperation"); fo != nil {
+			R2 := NewRenderer(fo)
+			ex := ""
+			for _, ea := range allAtoms(fo, R2) {
+				s := ea.Atom.String()
+				if strings.HasSuffix(s, ".ExitCode ==0") && strings.HasPrefix(s, "+") && !strings.Contains(s, "count{") {
+					ex = strings.TrimSuffix(strings.TrimPrefix(s, "+"), " ==0")
+				}
+			}
+			if ex == "" {
+				c.Bad(rule, FnName(fo)+" | exit code tested", "", "fileOperation no longer tests ExitCode == 0", nil)
+			} else {
+				c.Guard(rule, fo, successReturns(fo), "return nil", nil,
+					okcall("(*replica/client.ReplicaClient).post"),
+					okcall("(*replica/client.ReplicaClient).get"),
+					atom("exit code 0", "+"+ex+" ==0"))
+			}
 		}
 	}
 }
